@@ -11,6 +11,7 @@ CONSTANTS
   MaxFatal = 1
   Timer = TRUE
   EmitMode = "none"
+  Record = FALSE
 INVARIANTS TypeOK
 PROPERTIES Terminates
 CHECK_DEADLOCK FALSE
